@@ -730,6 +730,9 @@ func validateTrace2(c *core.Ctx, st *stats, lines []string) error {
 		if err := json.Unmarshal([]byte(l), &e); err != nil {
 			return fmt.Errorf("bad trace line: %v", err)
 		}
+		if nb, err := json.Marshal(norm(e)); err == nil { // no JSON null reaches TLC
+			l = string(nb)
+		}
 		if e["ev"] == "file" { // a repository file: one event per declaration is not available, validate the file text
 			asts, _ := e["asts"].([]any)
 			if hasFeature2(asts, "single-variant-union") {
